@@ -759,11 +759,41 @@ namespace bloch::runtime {
                     case Value::Type::Int:
                         oss << "int";
                         break;
+                    case Value::Type::Long:
+                        oss << "long";
+                        break;
                     case Value::Type::Float:
                         oss << "float";
                         break;
                     case Value::Type::Bit:
                         oss << "bit";
+                        break;
+                    case Value::Type::Boolean:
+                        oss << "boolean";
+                        break;
+                    case Value::Type::IntArray:
+                        oss << "int[]";
+                        break;
+                    case Value::Type::LongArray:
+                        oss << "long[]";
+                        break;
+                    case Value::Type::FloatArray:
+                        oss << "float[]";
+                        break;
+                    case Value::Type::BitArray:
+                        oss << "bit[]";
+                        break;
+                    case Value::Type::BooleanArray:
+                        oss << "boolean[]";
+                        break;
+                    case Value::Type::StringArray:
+                        oss << "string[]";
+                        break;
+                    case Value::Type::CharArray:
+                        oss << "char[]";
+                        break;
+                    case Value::Type::QubitArray:
+                        oss << "qubit[]";
                         break;
                     case Value::Type::String:
                         oss << "string";
